@@ -22,6 +22,8 @@ def configs(tier):
         add(spec('sequence', 'rleja', 2, 1, 1), 'A,A'); add(spec('sequence', 'leja', 2, 1, 2), 'Sg,U,X,A', 0, max_paths=24); add(spec('sequence', 'min-delta', 2, 1, 1), 'K', 1)
         add(spec('localp', 'localp', 2, 1, 1, order=1), 'Sc,Sf'); add(spec('localp', 'semi-localp', 2, 1, 1, order=2), 'Ss,Sc', 1); add(spec('localp', 'localp-zero', 2, 1, 1, order=1), 'K')
         add(spec('global', 'clenshaw-curtis', 2, 1, 1), 'A^!,Udv'); add(spec('sequence', 'rleja', 2, 1, 1), 'A^!,Uv'); add(spec('fourier', 'fourier', 2, 1, 1), 'A^!,Udv'); add(spec('localp', 'localp', 2, 1, 1, order=1), 'Sc^!,Sfv')
+        # min_growth larger than the number of points the limits leave (0 < left < min_growth): the call proposes the rest and returns; repeated until saturated
+        add(spec('sequence', 'leja', 2, 1, 1), 'A4,A4,A4', 0, max_paths=48); add(spec('global', 'rleja', 2, 1, 1), 'A4,A7,A4', 0, max_paths=48); add(spec('fourier', 'fourier', 2, 1, 0), 'A4,A7', 0, max_paths=30); add(spec('sequence', 'rleja', 2, 1, 2), 'A7,A4', 1, max_paths=30)
         # other selection types: the limits test sits in three different selection routines (lower set / general set / full tensor)
         add(spec('global', 'clenshaw-curtis', 2, 1, 3, 'ipcurved', aniso=2), 'Ud'); add(spec('global', 'leja', 2, 1, 2, 'qptotal', aniso=1), 'U'); add(spec('sequence', 'rleja', 2, 1, 2, 'iphyperbolic'), 'U'); add(spec('global', 'clenshaw-curtis', 2, 1, 2, 'tensor'), 'Ud')
         add(spec('wavelet', 'wavelet', 2, 1, 1, order=1), 'Sc'); add(spec('wavelet', 'wavelet', 2, 1, 0, order=3), 'Sc,Sc'); add(spec('wavelet', 'wavelet', 1, 1, 1, order=3), 'Sc,K'); add(spec('fourier', 'fourier', 2, 1, 1), 'A', 0); add(spec('fourier', 'fourier', 2, 1, 1), 'K', 1)
